@@ -175,6 +175,8 @@ def explore(
                         for w in NOTES.witnesses:
                             st['witnesses'][w] = st['witnesses'].get(w, 0) + 1
                         if len(st['samples']) < max_samples and (NOTES.nontrivial or st['paths'] < 2):
+                            with ResumedTracing():
+                                space.detach_path()  # realising below must not grow the search tree
                             rargs = deep_realize(dict(pre_args.arguments))
                             rargs.update(fixed)
                             st['samples'].append(dict(args=_jsonable(rargs), info=_jsonable(deep_realize(NOTES.info))))
